@@ -151,6 +151,15 @@ def funcs_filters(desc) -> list:
         return [(['g'], True)]
     if desc[0] == 'chain':
         return [(['g'], True), (['h'], True), (['g'], False), (['g', 'h'], True)]
+    if desc[0] == 'argnest':
+        # outer callees only (inner call stays: order kept by the call), inner only (known
+        # evaluation-order class), both
+        return [(['comb', 'comb3'], True), (['comb', 'comb3'], False), (['b'], True),
+                (['comb', 'comb3', 'b'], True), (['comb', 'comb3', 'b'], False)]
+    if desc[0] == 'two':
+        return [(['g1', 'g2'], True), (['g1', 'g2'], False), (['g1'], False), (['g2'], False)]
+    if desc[0] == 'pin':
+        return []
     names = pg.fact_functions(desc)
     leaves = [n for n in names if n.startswith('g')]
     helpers = [n for n in names if not n.startswith('g')]
@@ -287,7 +296,7 @@ def call(fn: Function, inp, ctx):
 class Check(BaseCheck):
     pid = 'C09'
     rule = ('every program of the C09 grammar (caller/callee pairs: 3 callee contexts x 8 callee bodies x 28 call '
-            'positions x 2 argument forms; factory family (2-3 callees capturing different/same values under one name: 3 contexts x 2 bodies x 9 layout-arity combinations x 2 variants); pinned family (declared context = pool format under RTZ/RTP/RTN or SATURATE on caller/callee/both/chain leaf, monomorphized against the pool and every same-format rounding mode: 96 programs); 3-chains: 3x3 contexts x 4 chain bodies x 8 leaf bodies x 9 positions) x '
+            'positions x 2 argument forms; factory family (2-3 callees capturing different/same values under one name: 3 contexts x 2 bodies x 9 layout-arity combinations x 2 variants); pinned family (declared context = pool format under RTZ/RTP/RTN or SATURATE on caller/callee/both/chain leaf, monomorphized against the pool and every same-format rounding mode: 96 programs); argnest family (inlined call nested in an argument of an inlined call, 7 positions x 3x2 contexts); two-callee family (callee local named like a free variable of another function, 18 programs); 16 extra pair programs with a context built from a constant local; 3-chains: 3x3 contexts x 4 chain bodies x 8 leaf bodies x 9 positions) x '
             'every pipeline of length 1 and every ordered pair of 7 base transformations x every pool input x every '
             'pool caller context; f(args, ctx=C) vs T(f)(args, ctx=C) (mono(C): T(f)(args) without ctx; close: '
             'captured globals changed after closing). nontrivial = judged case whose transformed program text '
@@ -316,7 +325,7 @@ class Check(BaseCheck):
         if self._programs is None:
             pairs = pg.all_pairs()
             chains = pg.all_chains()
-            facts = pg.all_facts() + pg.all_pins()
+            facts = pg.all_facts() + pg.all_pins() + pg.all_argnests() + pg.all_twos() + pg.all_extras()
             if self.tier == 'thorough':
                 self._programs = pairs + facts + chains
             else:
@@ -330,6 +339,8 @@ class Check(BaseCheck):
         return {'programs': len(ps), 'pairs': sum(1 for p in ps if p[0] == 'pair'),
                 'chains': sum(1 for p in ps if p[0] == 'chain'),
                 'factory_programs': sum(1 for p in ps if p[0] == 'fact'),
+                'argnest_programs': sum(1 for p in ps if p[0] == 'argnest'),
+                'two_callee_programs': sum(1 for p in ps if p[0] == 'two'),
                 'pinned_programs': sum(1 for p in ps if p[0] == 'pin'),
                 'pinned_inputs': len(pg.INPUTS_PIN),
                 'chains_total': len(pg.all_chains()),
@@ -458,7 +469,8 @@ class Check(BaseCheck):
                 r.notes.append(note)
             return False
 
-        changed = t.format() != ftext
+        ttext = t.format()
+        changed = ttext != ftext
         pin = pinned_ctx(pipeline)
         has_close = any(s['op'] == 'close' for s in pipeline)
         change_globals = has_close and globals_can_change(t)
@@ -489,6 +501,12 @@ class Check(BaseCheck):
                     symptom = 'value' if got[0] == 'ok' else 'raises-' + got[1]
                     sig = {'pass': passes, 'position': shape['position'], 'inner': shape['inner'],
                            'effect': shape['effect'], 'symptom': symptom}
+                    if desc[0] == 'argnest' and any(f'{o}(' in ttext for o in pg.ARGNEST_OUTER):
+                        # the outer call was NOT inlined, so the inner body was spliced ahead of a
+                        # statement that still reads the list outside any inlined argument list:
+                        # the evaluation-order class already listed under position `readmut`
+                        sig['position'] = 'readmut'
+                        sig['inner'] = 'argnest-outer-kept'
                     case = {'desc': list(desc), 'src': src, 'pipeline': pipeline, 'input': list(inp),
                             'ctx': c, 'called_without_ctx': pin is not None, 'globals_changed': change_globals}
                     detail = (f'pipeline: {name}\ncallee: {shape["callee"]} (ctx {shape["callee_ctx"]}), position '
